@@ -34,10 +34,10 @@ CHECKS = {
  'C05': ('exploration', 'qcache', 'deterministic simulation: differential cache-loss injection over seeded query histories',
          'seeded histories of query executions re-using code objects and strings with varying parameter values/types are run under cache-fault schedules (never drop / drop all before each op / seeded drops); observations must be identical', 'DESIGN 5 C05'),
  'C09': ('exploration', 'seq', 'deterministic simulation: seeded session histories with DB faults against an executable reference model',
-         'seeded multi-session histories with injected DB faults; the database dump after every commit/rollback/failure is compared with the reference model', 'DESIGN 5 C09'),
+         'seeded multi-session histories with injected DB faults and, in every fifth history, a peer process committing a write behind an optimistic session; the database dump after every commit/rollback/failure is compared with the reference model, an UPDATE that matched no row may not be accepted', 'DESIGN 5 C09'),
  'C10': ('exploration', 'seq', 'deterministic simulation: seeded histories with injected flush timing against a reference model',
          'every read in seeded histories is compared with the reference model session view under never/always/seeded injected flush timing', 'DESIGN 5 C10'),
- 'C11': ('exploration', 'seq', 'deterministic simulation: identity-map invariants after every step of seeded histories',
+ 'C11': ('exploration', 'seq', 'deterministic simulation: identity-map invariants after every step of seeded histories, also after an injected peer write',
          'index/object bijection invariant after every operation plus identity audits through every access path (Entity[pk], get, select, navigation, proxies kept across sessions, base-class lookups of subclass objects)', 'DESIGN 5 C11'),
  'C12': ('exploration', 'seq', 'deterministic simulation: relationship symmetry invariants after every step of seeded histories',
          'both-ends-agree invariant over loaded state after every operation; link tables compared with the model at commit', 'DESIGN 5 C12'),
